@@ -636,10 +636,24 @@ func (g *FuncGen) applyContract(pos token.Pos, fi *FuncInfo, recv *Val, args []V
 		res = append(res, v)
 		names[rnames[i]] = v
 	}
+	// a callee that may read: its postconditions were proved for runs without a read fault, and are available to the
+	// caller in such runs only; the flag is monotone and a read fault is an I/O failure
+	guard := ""
+	if fi.Writes["$rdfail"] {
+		wasRd := g.ghostGet(pre, "$rdfail")
+		nowRd := g.ghostGet(st, "$rdfail")
+		g.assume(st, fmt.Sprintf("(=> %s %s)", wasRd, nowRd))
+		g.assume(st, fmt.Sprintf("(=> (and %s (not %s)) %s)", nowRd, wasRd, g.ghostGet(st, "$iofail")))
+		guard = nowRd
+	}
 	if fi.Spec != nil {
 		for _, en := range fi.Spec.Ensures {
 			env := &CEnv{g: g, pkg: fi.Pkg, st: st, old: pre, names: names}
-			g.assume(st, env.evalBool(en.Expr))
+			if guard != "" {
+				g.assume(st, fmt.Sprintf("(=> (not %s) %s)", guard, env.evalBool(en.Expr)))
+			} else {
+				g.assume(st, env.evalBool(en.Expr))
+			}
 		}
 	}
 	// the callee's own iofail obligation (genfunc.go): failures stay recorded, and a callee that returns an error reports them
